@@ -141,6 +141,7 @@ class Exec:
         self.cur_fn = fn
         self.refs = set()       # decl ids of reference locals / parameters bound to a memory cell or a local aggregate element
         self.fresh = 0
+        self.searches = []      # linear searches `while(i < hi && P(i)) ++i;`: {"sym", "lo", "hi", "found" (atom), "q": function t -> (not P)(t)}
 
     # ---- atoms ---------------------------------------------------------------------------------
     def atom(self, name):
@@ -165,6 +166,13 @@ class Exec:
                     res = sp.Or(res, sp.And(rest, c_, r_))
                     rest = sp.And(rest, sp.Not(c_))
                 return sp.simplify_logic(res)
+        for sr in self.searches:
+            dd = sp.expand(a - b)
+            F = sr["found"]
+            if dd == sp.expand(sr["sym"] - sr["hi"]):       # (result) op (end of range); result <= end always
+                return {"<": F, ">=": sp.Not(F), "==": sp.Not(F), "!=": F, ">": sp.false, "<=": sp.true}[op]
+            if dd == sp.expand(sr["hi"] - sr["sym"]):
+                return {">": F, "<=": sp.Not(F), "==": sp.Not(F), "!=": F, "<": sp.false, ">=": sp.true}[op]
         if op in ("==", "!="):
             d = sp.expand(a - b)
             from sympy.core.function import AppliedUndef
@@ -246,6 +254,21 @@ class Exec:
             v = pick
         return v
 
+    def subst_atoms(self, cond, old, new):
+        """boolean formula over comparison atoms with the integer symbol `old` replaced by `new` inside the compared expressions"""
+        if not isinstance(cond, sp.Basic):
+            return cond
+        sub = {}
+        for a in cond.free_symbols:
+            if str(old) not in str(a):
+                continue
+            info = self.atom_info.get(a)
+            if not info or info[0] not in ("zero", "pos"):
+                raise Incomplete("search predicate atom %s cannot be moved to another position" % a)
+            e2 = sp.expand(info[1].subs(old, new))
+            sub[a] = self.cmp("==", e2, sp.Integer(0)) if info[0] == "zero" else self.cmp(">", e2, sp.Integer(0))
+        return cond.subs(sub) if sub else cond
+
     def refine(self, pc):
         """path condition with the comparison atoms that the ranges of the active symbolic loops decide folded away (a guard
         `if(ue == 0) return;` in front of `for(i < ue)` is no condition on the stores of the generic iteration i)"""
@@ -304,11 +327,24 @@ class Exec:
     def store(self, cell, val, pc, node, broadcast=False):
         key = (cell.arr.name, tuple(sexp(i) for i in cell.idx))
         pc = self.refine(pc)
+        extra_frames = []
+        for sr in self.searches:
+            if any(isinstance(i_, sp.Basic) and sr["sym"] in i_.free_symbols for i_ in key[1]):
+                # if the search may have failed the position can be the end of the searched range itself (one past its last entry)
+                guarded = sp.simplify_logic(sp.Implies(pc, sr["found"])) is sp.true
+                extra_frames.append({"symbolic": True, "var": str(sr["sym"]), "sym": sr["sym"], "lo": sr["lo"], "hi": sr["hi"] if guarded else sexp(sr["hi"] + 1),
+                                     "outer_decls": (), "brk": [sp.false], "search": sr})
+        ssyms = {sr["sym"] for sr in self.searches}
+
+        def at_search(idx_):
+            return any(isinstance(i_, sp.Basic) and (i_.free_symbols & ssyms) for i_ in idx_)
         for (an, idx2) in self.mem:
             if an == key[0] and idx2 != key[1] and (len(idx2) != len(key[1]) or not self._distinct(idx2, key[1])):
+                if at_search(key[1]) != at_search(idx2):
+                    continue      # a store at a search result overlaps the generic position of its row: kept in order, resolved by the summary
                 raise Incomplete("store to %s may alias the earlier store to %s[%s]" % (cell, an, idx2))
         self.mem.setdefault(key, []).append((pc, val))
-        self.stores.append({"arr": key[0], "idx": key[1], "val": val, "pc": pc, "loops": list(self.loops),
+        self.stores.append({"arr": key[0], "idx": key[1], "val": val, "pc": pc, "loops": list(self.loops) + extra_frames,
                             "l": node.get("l"), "broadcast": broadcast})
 
     # ---- values --------------------------------------------------------------------------------
@@ -867,6 +903,34 @@ class Exec:
         `continue` can skip it"""
         c, body = n.get("c"), n.get("body")
         d = None
+        if c and c.get("k") == "Bin" and c.get("op") == "&&":
+            # linear search `while((i < hi) && P(i)) ++i;`: afterwards i is the first position of [i0, hi) at which P fails, or hi
+            step = body["s"][0] if body and body.get("k") == "Block" and len(body.get("s", [])) == 1 else body
+            for bnd, pred in ((c["lhs"], c["rhs"]), (c["rhs"], c["lhs"])):
+                if bnd.get("k") == "Bin" and bnd.get("op") == "<":
+                    xd, koff = self._ind_side(bnd["lhs"])
+                    if xd is not None and koff == 0 and xd in env and step is not None and self._step_of(step, xd) == 1 and isinstance(env[xd], sp.Expr) \
+                       and not any(y.get("k") == "Ref" and y.get("d") == xd for y in walk(bnd["rhs"])):
+                        for lp in self.loops:
+                            if lp["symbolic"] and xd in lp["outer_decls"]:
+                                raise Incomplete("local carried across iterations of a symbolic loop")
+                        lo = sexp(self.scalar(env[xd], pc))
+                        hi = sexp(self.scalar(self.rv(self.ev(bnd["rhs"], env, pc), pc), pc))
+                        self.fresh += 1
+                        name = next((y.get("n") for y in walk(bnd["lhs"]) if y.get("k") == "Ref"), "it")
+                        ssym = isym("first_%s%d" % (name, self.fresh))
+                        F = self.atom("found(%s)" % ssym)
+                        self.atom_info[F] = ("found", ssym)
+                        # (not P) at an arbitrary position t of the range
+                        env[xd] = ssym
+                        frame = {"symbolic": True, "var": str(ssym), "sym": ssym, "lo": lo, "hi": hi, "outer_decls": set(), "brk": [sp.false], "exit_atom": None}
+                        self.loops.append(frame)
+                        try:
+                            pval = self.truth(self.rv(self.ev(pred, env, pc), pc))
+                        finally:
+                            self.loops.pop()
+                        self.searches.append({"sym": ssym, "lo": lo, "hi": hi, "found": F, "q": sp.Not(pval)})
+                        return pc
         if c and c.get("k") == "Bin":
             for side in ("lhs", "rhs"):
                 xd = self._ind_side(c[side])[0]
@@ -1184,7 +1248,7 @@ def atoms_of(*things):
     for t in things:
         if isinstance(t, sp.Basic):
             for s_ in t.free_symbols:
-                if s_.is_integer is None and (str(s_).startswith("(") or str(s_).startswith("isnan(") or str(s_).startswith("exited(") or str(s_).endswith(".empty") or str(s_) in ("ign_nans", "this._ignore_nans")):
+                if s_.is_integer is None and (str(s_).startswith("(") or str(s_).startswith("isnan(") or str(s_).startswith("exited(") or str(s_).startswith("found(") or str(s_).endswith(".empty") or str(s_) in ("ign_nans", "this._ignore_nans")):
                     out.add(s_)
     return out
 
@@ -1582,6 +1646,7 @@ def matrix_summary(facts, fn, by_decl):
     ms.ex = ex
     from sympy.core.function import AppliedUndef
     ms.footprint, ms.coverage, ms.unknown = [], [], []
+    ms.search_implications = []     # (Q(J), found): an entry J of the searched row with Q(J) exists only if the search succeeded
     ms.cells = {}
     ms.i = ms.j = ms.ix = None
     ms.sv = None
@@ -1615,6 +1680,22 @@ def matrix_summary(facts, fn, by_decl):
         elif s["arr"].endswith("@pod"):
             s = dict(s, arr=p + ".val")
         j = s["idx"][0]
+        srch = [lp_ for lp_ in s["loops"] if lp_.get("search") and lp_["sym"] in j.free_symbols]
+        if srch and sp.expand(j - srch[0]["sym"]) == 0:
+            # store at the position a linear search stopped at (the first t of [lo,hi) with Q(t)): for the generic position J of
+            # that range it is the store `if(Q(J)) ...` - rows hold every column index at most once (CSR invariant), so J is the
+            # found position exactly if Q(J)
+            sr = srch[0]["search"]
+            J = getattr(ms, "jsub", None)
+            prev = [lp_ for st_ in ex.stores for lp_ in st_["loops"] if lp_["symbolic"] and not lp_.get("search") and J is not None and lp_["sym"] == J]
+            if J is None or not prev or sp.expand(prev[0]["lo"] - sr["lo"]) != 0 or sp.expand(prev[0]["hi"] - sr["hi"]) != 0:
+                J = srch[0]["sym"]
+            qJ = ex.subst_atoms(sr["q"], srch[0]["sym"], J)
+            ms.search_implications.append((qJ, sr["found"]))
+            frame = dict(srch[0], sym=J)
+            frame.pop("search", None)
+            s = dict(s, idx=(J,) + tuple(s["idx"][1:]), pc=sp.simplify_logic(sp.And(s["pc"], qJ)), loops=[lp_ for lp_ in s["loops"] if not lp_.get("search")] + [frame])
+            j = J
         # position = (loop variable t) + base: effective range [lo+base, hi+base)
         tsyms = [lp_ for lp_ in s["loops"] if lp_["symbolic"] and lp_["sym"] in j.free_symbols]
         lp = None
@@ -1689,7 +1770,11 @@ def unit_row_problems(ms, kind):
             nan = ex.atom("isnan(%s)" % sp.sstr(sp.Function("this.%s.elements" % ms.sv)(ms.i, cell[0])))
             spec_atoms |= {ign, nan}
         atoms = spec_atoms.union(*[atoms_of(s["pc"], s["val"]) for s in stores])
+        for q_, f_ in ms.search_implications:
+            atoms |= atoms_of(q_, f_)
         for asg in assignments(atoms):
+            if any(holds(q_, asg) and not holds(f_, asg) for q_, f_ in ms.search_implications):
+                continue          # an entry with the searched property exists although the search over the whole row failed: infeasible
             stored, val = final_value(stores, asg)
             exp_stored = True if ign is None else not (asg[ign] and asg[nan])
             name = "entry" if not cell else "block entry (%d,%d)" % cell
@@ -3205,7 +3290,7 @@ def analyse(ck, facts, prefix, driver):
 
 
 def finish(ck, wide):
-    ck.assume("index sets of a filter contain no duplicates and CSR/BCSR row segments of distinct rows are disjoint (property quantifier: 'duplicates excluded'); stores of different filter entries therefore do not alias")
+    ck.assume("index sets of a filter contain no duplicates and CSR/BCSR row segments of distinct rows are disjoint (property quantifier: 'duplicates excluded'); stores of different filter entries therefore do not alias; a CSR row stores every column index at most once (used to identify the position a linear search for the diagonal entry stops at with the entry whose column is the row)")
     ck.assume("kernels are analysed as instantiated for the template arguments of the driver (%s; block sizes 2 and 3; BCSR blocks 2x2, 2x3, 3x3, 3x2, 1x2); build configuration without CUDA/MKL, so dispatchers reach the *_generic kernels" % ("double/float x 64/32-bit indices" if wide else "double, 64-bit indices; the thorough tier adds float and 32-bit indices"))
     ck.assume("mean filters: <_vec_prim,_vec_dual> = _volume is taken from the constructors' documentation; rounding is not modelled (symbolic real arithmetic)")
     expl = ("Static analysis of the filter layer as parsed by clang from the instantiation driver tu/c06_filters.cpp: a symbolic executor over the typed statement trees "
